@@ -272,7 +272,14 @@ func (g *Gen) Alts(t reflect.Type, budget int, substitute bool) []reflect.Value 
 			s := reflect.MakeSlice(t, n, n)
 			for i := 0; i < n; i++ {
 				ea := g.Alts(t.Elem(), budget, false)
-				s.Index(i).Set(ea[i%len(ea)])
+				el := ea[i%len(ea)]
+				if i >= len(ea) {
+					// more items than alternatives: the items must still differ from one another (an item
+					// that aliases or repeats its neighbour would otherwise go unnoticed)
+					el = Clone(el)
+					perturb(el, i)
+				}
+				s.Index(i).Set(el)
 			}
 			out = append(out, s)
 		}
@@ -346,6 +353,42 @@ func (g *Gen) Alts(t reflect.Type, budget int, substitute bool) []reflect.Value 
 		return out
 	}
 	return nil
+}
+
+// perturb makes v differ from its original in every mandatory scalar field it reaches directly (ints, longs,
+// doubles, strings, byte strings), by an amount that depends on k.
+func perturb(v reflect.Value, k int) {
+	for v.Kind() == reflect.Ptr || v.Kind() == reflect.Interface {
+		if v.IsNil() {
+			return
+		}
+		v = v.Elem()
+	}
+	if v.Kind() != reflect.Struct || !v.CanSet() && v.NumField() == 0 {
+		return
+	}
+	for i := 0; i < v.NumField(); i++ {
+		f := v.Field(i)
+		sf := v.Type().Field(i)
+		if sf.PkgPath != "" || !f.CanSet() {
+			continue
+		}
+		if tg := ParseTag(sf); tg.Has {
+			continue // flags and conditional fields keep their shape
+		}
+		switch f.Kind() {
+		case reflect.Int32, reflect.Int64:
+			f.SetInt(f.Int() + int64(1000*k))
+		case reflect.Float64:
+			f.SetFloat(f.Float() + float64(k))
+		case reflect.String:
+			f.SetString(f.String() + string(rune('a'+k%26)))
+		case reflect.Slice:
+			if f.Type().Elem().Kind() == reflect.Uint8 {
+				f.SetBytes(append(append([]byte{}, f.Bytes()...), byte(0x40+k)))
+			}
+		}
+	}
 }
 
 func (g *Gen) entryHeight(e *Entry) int {
